@@ -18,6 +18,15 @@ pub unsafe fn znx_switch_ring_avx(res: &mut [i64], a: &[i64]) {
             return;
         }
 
+        // Fewer coefficients than AVX lanes on either side: the vector loops below would skip
+        // (down-sampling) or overrun (up-sampling) them.
+        if n_in.min(n_out) < 4 {
+            use poulpy_cpu_ref::reference::znx::znx_switch_ring_ref;
+
+            znx_switch_ring_ref(res, a);
+            return;
+        }
+
         if n_in > n_out {
             // Downsample: res[k] = a[k * gap_in], contiguous stores
             let gap_in: usize = n_in / n_out;
